@@ -680,6 +680,15 @@ func (ip *Interp) store(addr, val Value) {
 			if (t.Class == "zero" || t.Class == "struct") && len(t.Fields) == 0 && len(t.Attr) == 0 {
 				return
 			}
+			if t.Class == "zero" && len(t.Fields) == 0 {
+				// *p = T{}: every field is reset
+				for k := range a.Fields {
+					delete(a.Fields, k)
+				}
+				delete(a.Attr, "copyOf")
+				a.Attr["zeroed"] = Bool(true)
+				return
+			}
 			// struct value copy: the destination takes over the source's fields (those not materialised yet are
 			// looked up in the source on first use)
 			for k, v := range t.Fields {
@@ -729,6 +738,16 @@ func (ip *Interp) call(f *frame, site ssa.CallInstruction, args []Value) Value {
 		return ip.opaqueResult(com.Signature())
 	}
 	if com.IsInvoke() {
+		// an object the interpreted code allocated itself is known by its Go type: the call is that type's method
+		if tok, ok := args[0].(*Tok); ok && len(args) > 0 {
+			if gt, ok := tok.Attr["gotype"].(types.Type); ok && f.fn.Prog != nil {
+				if sel := f.fn.Prog.MethodSets.MethodSet(gt).Lookup(com.Method.Pkg(), com.Method.Name()); sel != nil {
+					if m := f.fn.Prog.MethodValue(sel); m != nil && m.Blocks != nil && (ip.InScope == nil || ip.InScope(m) || m.Synthetic != "") && ip.depth <= ip.MaxDepth {
+						return ip.CallFunction(m, args, nil)
+					}
+				}
+			}
+		}
 		undecided("invoke %s on %s not modelled", com.Method.Name(), Show(args[0]))
 	}
 	if cal := com.StaticCallee(); cal != nil {
@@ -992,6 +1011,11 @@ func (ip *Interp) step(f *frame, v ssa.Value) Value {
 		if l, ok := v.(*List); ok {
 			l.GoType = x.X.Type()
 		}
+		if t, ok := v.(*Tok); ok {
+			if _, isStruct := x.X.Type().Underlying().(*types.Struct); isStruct && t.Attr["gotype"] != nil {
+				t.Attr["boxed"] = x.X.Type() // a struct the code built and boxed by value: its dynamic type
+			}
+		}
 		return v
 	case *ssa.ChangeInterface:
 		return ip.eval(f, x.X)
@@ -1081,7 +1105,7 @@ func (ip *Interp) step(f *frame, v ssa.Value) Value {
 			if ok {
 				return Tuple{val, Bool(true)}
 			}
-			return Tuple{Nil{}, Bool(false)}
+			return Tuple{ip.ZeroOf(x.AssertedType), Bool(false)}
 		}
 		if !ok {
 			panic(&GoPanic{Msg: "interface conversion failed: " + Show(val) + " is not " + x.AssertedType.String()})
